@@ -34,6 +34,8 @@ R = 'spec.rfc8032.'
 
 CURVES = ('Ed25519', 'Ed448')
 CID = {'Ed25519': R + 'ED25519', 'Ed448': R + 'ED448'}
+GID = {'Ed25519': 25519, 'Ed448': 448}                      # == spec.rfc8032.ED25519 / ED448 (checked in registry())
+LVAL = {'Ed25519': R + 'L25519', 'Ed448': R + 'L448'}
 HCLS = {'Ed25519': SHA, 'Ed448': XOF}
 # how the code under contract names the two hash classes (clauses are evaluated in the scope of Crypto.Signature.eddsa)
 HNAME = {'Ed25519': 'SHA512.SHA512Hash', 'Ed448': 'SHAKE256.SHAKE256_XOF'}
@@ -68,8 +70,8 @@ def accept(c):
 
 
 def signature_of(c):
-    return R + 'sign(%s, %s, self._key._d._value, self._key._prefix, %senc(%s, %s), self._context, %s, %s)' % (
-        CID[c], BASE, R, CID[c], PUB, flag(c), phm(c))
+    return R + 'sign(%s, %s, self._key._d._value, self._key._prefix, %s, self._context, %s, %s)' % (
+        CID[c], BASE, PUB, flag(c), phm(c))
 
 
 # ---------------------------------------------------------------- key side (ASSUMED)
@@ -141,19 +143,27 @@ def model_construct(Eng, st, args, kwargs):
     return apply_contract(Eng, c, st, a, {})
 
 
-def add_ed_key(reg):
+def add_ed_key(reg, curve=None):
+    """curve: None = any key (the curve name is 'Ed25519', 'Ed448' or another string); 'Ed25519' / 'Ed448' = the registry is
+    specialised to keys on that curve (the name and the ghost id of the parameter set are constants: fewer case splits, and
+    the order L is a literal, which keeps `x % L` linear)"""
     add_points(reg)
     reg.add(Contract(PT + '.__eq__', params={'point': 'obj:' + PT}, requires=['point.g_curve == self.g_curve'],
                      returns='self.g_pt == point.g_pt', modifies=[], options={'exact': True},
                      assumed='point comparison == equality of the abstract group elements (C06; bounded/ec.py k_group)'))
     # the curve object of a key: parameter set designated by g_id; L is the constant of RFC 8032 5.1 / 5.2
-    reg.add(ClassContract(CURVE, fields={'order': OINT, 'G': 'obj:' + PT, 'g_id': 'int'},
-                          valid=['self.order._value >= 2', 'spec.mathint.prime(self.order._value)', 'self.G.g_curve == self.g_id',
-                                 'self.g_id == %sED25519 ==> self.order._value == %sL25519' % (R, R),
-                                 'self.g_id == %sED448 ==> self.order._value == %sL448' % (R, R)]))
+    if curve is None:
+        gid, name = 'int', "enum('Ed25519','Ed448')|str"
+        order = ['self.g_id == %sED25519 ==> self.order._value == %sL25519' % (R, R),
+                 'self.g_id == %sED448 ==> self.order._value == %sL448' % (R, R)]
+    else:
+        gid, name = ('const', GID[curve]), ('const', curve)
+        order = ['self.order._value == %s' % LVAL[curve]]
+    reg.add(ClassContract(CURVE, fields={'order': OINT, 'G': 'obj:' + PT, 'g_id': gid},
+                          valid=['self.order._value >= 2', 'spec.mathint.prime(self.order._value)', 'self.G.g_curve == self.g_id'] + order))
     reg.add(ClassContract(KEY,
                           fields={'_curve': 'obj:' + CURVE, '_point': 'obj:%s|none' % PT, '_d': OINT + '|none', '_prefix?': 'bytes',
-                                  'curve': "enum('Ed25519','Ed448')|str"},
+                                  'curve': name},
                           valid=['self._point is not None or self._d is not None',
                                  'self._point is None or self._point.g_curve == self._curve.g_id',
                                  'self._d is None or self._d._value >= 1',
@@ -276,9 +286,9 @@ def sign_top():
                     result='bytes', modifies=[], opaque=[R + 'sign'])
 
 
-def registry():
+def registry(curve=None):
     reg = common_registry()
-    add_ed_key(reg)
+    add_ed_key(reg, curve)
     add_hashes(reg)
     add_scheme(reg)
     for c in CURVES:
